@@ -60,6 +60,18 @@ mobility_from_composition_set called with the object's own callables):
                      curvature, D^n_kj = sum_i (delta_ik - x_k) x_i D*_i/(R_eff T) dmu_i/d(x_j - x_n) (Darken's equation
                      for a binary), with dmu_i/dx from the phase record Hessian (no kawin code), entry by entry in the
                      element order of the object, 1e-6 of sqrt(D_kk D_jj) (measured 4e-10).
+  phase_argument_reference
+                     (added on the coordinator's request after a seeded change that used the first listed phase for the
+                     local equilibrium of getInterdiffusivity(..., phase=p) went unnoticed)  Ten Fe-Cr-Ni variants use
+                     objects that list two or three phases, two of them with mobility data (['FCC_A1','BCC_A2'],
+                     ['BCC_A2','FCC_A1'], ['SIGMA','FCC_A1','BCC_A2']; ternary, Fe-Cr, Fe-Ni) and address the judged phase
+                     through the explicit phase= argument of getInterdiffusivity / getTracerDiffusivity, as the first and
+                     as a later entry of the list.  The judged phase must be the single stable phase (same admission
+                     filter); ALL clauses above are evaluated for it - curvature, finite differences and reference
+                     Hessian from getLocalEq(..., [p]) of that phase, tracer = R T M with that phase's mobility model,
+                     Darken, interdiff_tracer_consistency, flux_sum_zero - and in addition both public results must equal
+                     those of an object that lists only this phase (default call), 1e-9 (measured 5e-12; same corrections
+                     are set on both objects).
   Mobility corrections: two thirds of the cases on mobility databases run after therm.setMobilityCorrection - uniform
   ('all', f) or on one/two elements (reference element included in ~half of them), f log-uniform in 0.2..8 - and every
   mobility clause is evaluated with the corrected mobility f_i M_i: tracer = R T f_i M_i, compiled mobility vector,
@@ -88,7 +100,7 @@ RULE = ('cases = (database, matrix phase, thermodynamics class, element order/re
         'block).')
 REQUIRED_MONITORS = ['call_succeeds', 'hessian_fd', 'hessian_reference', 'hessian_symmetric', 'hessian_posdef',
                      'interdiff_eigen', 'tracer_positive', 'tracer_rtm', 'darken_binary', 'flux_sum_zero',
-                     'interdiff_tracer_consistency']
+                     'interdiff_tracer_consistency', 'phase_argument_reference']
 REACH = ['thermo/FreeEnergyHessian.py:hessian', 'thermo/FreeEnergyHessian.py:totalddx',
          'thermo/FreeEnergyHessian.py:dMudX', 'thermo/FreeEnergyHessian.py:partialdMudX',
          'thermo/Mobility.py:mobility_from_composition_set', 'thermo/Mobility.py:tracer_diffusivity',
@@ -140,6 +152,7 @@ H_REL_SETS = [[3.2e-2, 1.6e-2, 8e-3], [2.6e-2, 1.3e-2, 6.5e-3], [2.9e-2, 1.45e-2
 TOL_FD_PAIR = 1e-6     # agreement of the Richardson values of two independent step-size sets
 CORR_MODES = ['none', 'all', 'elements']   # setMobilityCorrection: untouched / ('all', f) / one or two elements
 CORR_RANGE = (0.2, 8.0)                    # f log-uniform
+TOL_PHASE_REF = 1e-9                       # phase= argument vs object listing only that phase (same arithmetic)
 TOL_CONSIST = 1e-6                         # interdiffusivity vs tracer diffusivities x analytic curvature
 NT_XMIN = 1e-4
 
@@ -166,7 +179,7 @@ SYSTEMS = {
              'box': {'AL': None, 'ZR': (1.02e-4, 9e-4)}, 'model': 'diffusivity'},
 }
 
-# (system, class, elements (first = reference), phases (first = matrix))
+# (system, class, elements (first = reference), phases (first = matrix)[, phase addressed with phase=])
 VARIANTS = [
     # --- Ni-Cr-Al, ternary
     ('NiCrAl', 'general', ['NI', 'CR', 'AL'], ['FCC_A1']),
@@ -194,6 +207,18 @@ VARIANTS = [
     ('FeCrNi_fcc', 'general', ['FE', 'CR'], ['FCC_A1']),
     ('FeCrNi_bcc', 'general', ['FE', 'CR'], ['BCC_A2']),
     ('FeCrNi_bcc', 'general', ['CR', 'FE'], ['BCC_A2', 'SIGMA']),
+    # --- Fe-Cr-Ni, objects listing two phases that both carry mobility data; the judged phase is addressed through
+    #     the explicit phase= argument (5th entry), as the first or as a later entry of the list, both list orders
+    ('FeCrNi_bcc', 'general', ['FE', 'CR', 'NI'], ['FCC_A1', 'BCC_A2'], 'BCC_A2'),
+    ('FeCrNi_bcc', 'general', ['CR', 'FE', 'NI'], ['BCC_A2', 'FCC_A1'], 'BCC_A2'),
+    ('FeCrNi_fcc', 'general', ['FE', 'CR', 'NI'], ['BCC_A2', 'FCC_A1'], 'FCC_A1'),
+    ('FeCrNi_fcc', 'general', ['NI', 'FE', 'CR'], ['FCC_A1', 'BCC_A2'], 'FCC_A1'),
+    ('FeCrNi_bcc', 'general', ['FE', 'CR'], ['FCC_A1', 'BCC_A2'], 'BCC_A2'),
+    ('FeCrNi_bcc', 'general', ['CR', 'FE'], ['BCC_A2', 'FCC_A1'], 'BCC_A2'),
+    ('FeCrNi_bcc', 'general', ['FE', 'CR'], ['SIGMA', 'FCC_A1', 'BCC_A2'], 'BCC_A2'),
+    ('FeCrNi_fcc', 'general', ['FE', 'NI'], ['BCC_A2', 'FCC_A1'], 'FCC_A1'),
+    ('FeCrNi_fcc', 'general', ['FE', 'CR'], ['BCC_A2', 'FCC_A1'], 'FCC_A1'),
+    ('FeCrNi_fcc', 'general', ['NI', 'FE'], ['FCC_A1', 'BCC_A2'], 'FCC_A1'),
     # --- Al-Mg-Si
     ('AlMgSi', 'multi', ['AL', 'MG', 'SI'], ['FCC_A1', 'MG2SI_B']),
     ('AlMgSi', 'general', ['AL', 'SI', 'MG'], ['FCC_A1']),
@@ -216,8 +241,12 @@ def plan(tier, seed):
     cases = []
     nb = N_BLOCKS[tier]
     for b in range(nb):
-        for vi, (sysname, cls, els, phases) in enumerate(VARIANTS):
+        for vi, var in enumerate(VARIANTS):
+            sysname, cls, els, phases = var[:4]
+            target = var[4] if len(var) > 4 else phases[0]
             cases.append({'system': sysname, 'variant': vi, 'cls': cls, 'elements': els, 'phases': phases,
+                          'target': target, 'phase_arg': ('none' if len(var) == 4 else
+                                                          'first' if target == phases[0] else 'later'),
                           'block': b, 'n': POINTS_PER_CASE, 'api': 'array' if (b + vi) % 3 == 0 else 'single',
                           'correction': (CORR_MODES[(b // 3 + vi) % 3] if SYSTEMS[sysname]['model'] == 'mobility'
                                          else 'none'),
@@ -577,6 +606,11 @@ def run_case(case, R):
     from vlib import core
     therm = _therm(case)
     els = list(case['elements'])
+    # independent reference for the phase= argument: an object that lists only the judged phase
+    ref_therm = None
+    if case.get('phase_arg', 'none') != 'none':
+        ref_therm = _therm({'system': case['system'], 'cls': 'general', 'elements': els, 'phases': [case['target']]})
+    objs = [therm] + ([ref_therm] if ref_therm is not None else [])
     # ---- mobility corrections through the public API (objects are cached per worker: always reset)
     fac = {e: 1.0 for e in els}
     mode = case.get('correction', 'none')
@@ -594,21 +628,24 @@ def run_case(case, R):
             for e in chosen:
                 fac[e] = float(math.exp(crng.uniform(lo, hi)))
     try:
-        therm.setMobilityCorrection('all', 1)
-        if mode == 'all':
-            therm.setMobilityCorrection('all', fac[els[0]])
-        elif mode == 'elements':
-            for e in els:
-                if fac[e] != 1.0:
-                    therm.setMobilityCorrection(e, fac[e])
+        for t in objs:
+            t.setMobilityCorrection('all', 1)
+            if mode == 'all':
+                t.setMobilityCorrection('all', fac[els[0]])
+            elif mode == 'elements':
+                for e in els:
+                    if fac[e] != 1.0:
+                        t.setMobilityCorrection(e, fac[e])
         R.info['correction'] = {'mode': mode, 'factors': fac}
         R.observe('cases_correction_' + mode)
-        _run_body(case, R, therm, fac)
+        R.observe('cases_phase_arg_' + case.get('phase_arg', 'none'))
+        _run_body(case, R, therm, fac, ref_therm)
     finally:
-        therm.setMobilityCorrection('all', 1)
+        for t in objs:
+            t.setMobilityCorrection('all', 1)
 
 
-def _run_body(case, R, therm, fac):
+def _run_body(case, R, therm, fac, ref_therm=None):
     from vlib import core
     from kawin.thermo.FreeEnergyHessian import dMudX
     from kawin.thermo import Mobility as kmob
@@ -618,13 +655,16 @@ def _run_body(case, R, therm, fac):
     els = list(case['elements'])
     n = len(els)
     model_kind = SYSTEMS[sysname]['model']
-    phase = therm.phases[0]                     # 'FCC_A1' or kawin's 'DIS_FCC_A1'
-    matrix = case['phases'][0]
+    matrix = case.get('target', case['phases'][0])      # the phase that must be the single stable one
+    # kawin's name of the judged phase: first entry ('FCC_A1' or kawin's 'DIS_FCC_A1') or the later entry itself
+    phase = therm.phases[0] if matrix == case['phases'][0] else matrix
+    phase_arg = case.get('phase_arg', 'none')
+    kw = {} if phase_arg == 'none' else {'phase': phase}
     ref0 = els[0]
     mode = case.get('correction', 'none')
     corr_mech = mode if mode != 'elements' else ('elements_incl_ref' if fac[ref0] != 1.0 else 'elements_solute_only')
     mech0 = {'system': sysname, 'matrix': matrix, 'kawin_phase': phase, 'cls': case['cls'], 'n_elements': n,
-             'elements': '-'.join(els), 'model': model_kind, 'correction': corr_mech}
+             'elements': '-'.join(els), 'model': model_kind, 'correction': corr_mech, 'phase_arg': phase_arg}
     fvec = np.array([fac[e] for e in els])          # input order
     R.info['phase'] = phase
 
@@ -654,8 +694,8 @@ def _run_body(case, R, therm, fac):
         xs = [[X[e] for e in els[1:]] for X, _ in admitted]
         Ts = [T for _, T in admitted]
         try:
-            Dall = therm.getInterdiffusivity(xs, Ts)
-            Tall = therm.getTracerDiffusivity(xs, Ts)
+            Dall = therm.getInterdiffusivity(xs, Ts, **kw)
+            Tall = therm.getTracerDiffusivity(xs, Ts, **kw)
             R.count('call_succeeds', 2)
             for i in range(len(admitted)):
                 pubD[i] = np.asarray(Dall[i], dtype=float)
@@ -741,8 +781,8 @@ def _run_body(case, R, therm, fac):
         # ---------------------------------------------------------------- public diffusivities
         if pubD[i] is None:
             try:
-                pubD[i] = np.asarray(therm.getInterdiffusivity(xin(X), T), dtype=float)
-                pubT[i] = np.asarray(therm.getTracerDiffusivity(xin(X), T), dtype=float)
+                pubD[i] = np.asarray(therm.getInterdiffusivity(xin(X), T, **kw), dtype=float)
+                pubT[i] = np.asarray(therm.getTracerDiffusivity(xin(X), T, **kw), dtype=float)
                 R.count('call_succeeds', 2)
             except Exception as e:
                 R.exception('call_succeeds', e, dict(mech, call='public_single'))
@@ -768,6 +808,26 @@ def _run_body(case, R, therm, fac):
         # tracer diffusivity: positive
         okT = Dt.shape == (n,) and bool(np.all(np.isfinite(Dt))) and bool(np.all(Dt > 0))
         R.check('tracer_positive', okT, m_api, tracer=Dt, x=X, T=T)
+
+        # phase= argument: same values as an object that lists only this phase (default call)
+        if ref_therm is not None:
+            try:
+                D0 = np.asarray(ref_therm.getInterdiffusivity(xin(X), T), dtype=float)
+                Dt0 = np.asarray(ref_therm.getTracerDiffusivity(xin(X), T), dtype=float)
+            except Exception as e:
+                R.exception('call_succeeds', e, dict(mech, call='reference_object'))
+                continue
+            if D0.shape == D.shape and Dt0.shape == Dt.shape and np.all(np.isfinite(D0)) and np.all(Dt0 > 0):
+                dd = np.atleast_2d(D) - np.atleast_2d(D0)
+                sc = np.sqrt(np.abs(np.outer(np.diag(np.atleast_2d(D0)), np.diag(np.atleast_2d(D0)))))
+                relD = float(np.max(np.abs(dd) / sc)) if np.all(sc > 0) and np.all(np.isfinite(dd)) else float('inf')
+                relT = float(np.max(np.abs(Dt / Dt0 - 1.0))) if np.all(np.isfinite(Dt)) else float('inf')
+            else:
+                relD = relT = float('inf')
+            R.worst('phase_arg_vs_single_phase_object', max(relD, relT) if math.isfinite(max(relD, relT)) else 1e300)
+            R.check('phase_argument_reference', relD <= TOL_PHASE_REF and relT <= TOL_PHASE_REF, m_api,
+                    D=D, D_single_phase_object=D0, tracer=Dt, tracer_single_phase_object=Dt0, relD=relD, relT=relT,
+                    x=X, T=T)
 
         clauses_done = fd is not None
         if therm.mobCallables.get(phase) is None:
